@@ -754,7 +754,7 @@ def check_size_shortcuts(ctx, prog):
                     ', '.join('%s = %s' % kv for kv in sorted(info.items())), 'true' if val else 'false', 'false' if val else 'true'))
             else:
                 ctx.undecided('C02.sizecut', f['pq'], role, fwhere(f, rt.get('l')), str(info))
-    ctx.floor('C02.sizecut', n, 1)
+    ctx.info['size_shortcuts_examined'] = n      # none is fine: a predicate without a size shortcut has nothing to decide here
 
 
 def check_dup(ctx, prog):
